@@ -71,6 +71,9 @@ def cases(draw, subject):
         # keep gaps fillable: at most ~40 buckets each (timestamps() already does)
     else:
         ts = [gs.BASE_DAY + 60 * i for i in range(n)]
+    if tf and draw(st.integers(0, 5)) == 0:
+        # sub-second timestamps (still non-decreasing): the library documents that it drops microseconds
+        ts = [t + 0.800001 + 0.001 * i for i, t in enumerate(ts)]
     stream = [[t] + r for t, r in zip(ts, rows)]
     mode = draw(st.sampled_from(("batch", "append", "append")))
     preload = 0 if mode == "batch" else min(n, draw(st.sampled_from((0, 0, 1, n // 2))))
@@ -148,9 +151,12 @@ def run_case(case) -> Result:
     if has_run(mono, 2 * p, w) or has_run(mono_d, 2 * p, w):
         labels.append("deg_monotone")
     inserted = 0
+    if case.get("tf") and rows and isinstance(rows[0][0], float):
+        labels.append("subsecond_timestamps")
     if case.get("tf") and case.get("fill") and rows:
         tfs = tf_seconds(case["tf"])
-        inserted = len(rr.resample(rows, tfs, fill=True)) - len(rr.resample(rows, tfs))
+        whole = [[int(r[0])] + r[1:] for r in rows]
+        inserted = len(rr.resample(whole, tfs, fill=True)) - len(rr.resample(whole, tfs))
         if inserted:
             labels.append("deg_fill")
     nontrivial = bool(labels)
